@@ -140,6 +140,66 @@ Fixpoint leading_links (secs : list (list tok)) : list (list tok) * list (list t
 
 Record case := mk_case { cs_cfg : cfg aval; cs_start : start aval; cs_ops : list (op aval) }.
 
+(* ---- operations issued by several threads on the one span (before anybody ends it):
+        PAR | TH | op.. | TH | op.. | SEQ | op..       1..4 threads, then the sequential rest
+   Thread i (0-based) may only SetAttribute keys and AddEvent names whose first byte is the digit i;
+   thread 0 may also UpdateName / SetStatus / IsRecording; no thread Ends the span.  Under these conditions
+   every interleaving gives the same export up to the order between events of different threads (ProofsPar),
+   the driver prints the events of the threaded part grouped by that first byte, and the case stands for
+   the sequentialisation thread 0, thread 1, ... *)
+Definition is_marker (m : string) (sec : list tok) : bool := match sec with [t] => is_tag m t | _ => false end.
+Fixpoint split_secs_aux (m : string) (l : list (list tok)) (cur : list (list tok)) : list (list (list tok)) :=
+  match l with
+  | [] => [rev cur]
+  | x :: r => if is_marker m x then rev cur :: split_secs_aux m r [] else split_secs_aux m r (x :: cur)
+  end.
+Definition split_secs (m : string) (l : list (list tok)) : list (list (list tok)) := split_secs_aux m l [].
+
+Definition digit (i : nat) : byte := n2b (48 + N.of_nat i).
+Definition owned_by (i : nat) (s : bytes) : bool := match s with b :: _ => Byte.eqb b (digit i) | [] => false end.
+Definition thread_op_ok {V} (i : nat) (o : op V) : bool :=
+  match o with
+  | SetAttr kv => owned_by i (fst kv)
+  | Event n _ _ => owned_by i n
+  | Status _ _ | UpdateName _ | IsRec => Nat.eqb i 0
+  | End _ => false
+  end.
+Fixpoint threads_ok {V} (i : nat) (ths : list (list (op V))) : bool :=
+  match ths with
+  | [] => true
+  | t :: r => forallb (thread_op_ok i) t && threads_ok (S i) r
+  end.
+
+Fixpoint parse_groups (gs : list (list (list tok))) : option (list (list (op aval))) :=
+  match gs with
+  | [] => Some []
+  | g :: r => match parse_all parse_op g, parse_groups r with
+              | Some t, Some r' => Some (t :: r')
+              | _, _ => None
+              end
+  end.
+Definition parse_ops (opsecs : list (list tok)) : option (list (op aval)) :=
+  match opsecs with
+  | par :: r =>
+      if is_marker "PAR" par then
+        match split_secs "SEQ" r with
+        | [thr; tail] =>
+            match split_secs "TH" thr with
+            | [] :: groups =>
+                match parse_groups groups, parse_all parse_op tail with
+                | Some ths, Some tl =>
+                    if Nat.leb 1 (List.length ths) && Nat.leb (List.length ths) 4 && threads_ok 0 ths
+                    then Some (List.concat ths ++ tl)%list else None
+                | _, _ => None
+                end
+            | _ => None
+            end
+        | _ => None
+        end
+      else parse_all parse_op opsecs
+  | [] => Some []
+  end.
+
 Definition parse_case (l : list tok) : option case :=
   match split_toks "|" l with
   | (tp :: kinds) :: [tsmp; TZ smp] :: [tsc; TB sn; TB sv; TB ss] :: res :: st :: rest =>
@@ -148,7 +208,7 @@ Definition parse_case (l : list tok) : option case :=
         | Some ks, Some ([tr], ra), Some ([tst; TB name; TZ kind; TZ sys; TZ steady], sa) =>
             if is_tag "R" tr && is_tag "ST" tst && (0 <=? kind) && (kind <=? 4) && ts_ok sys && ts_ok steady then
               let (lks, opsecs) := leading_links rest in
-              match parse_all parse_link lks, parse_all parse_op opsecs with
+              match parse_all parse_link lks, parse_ops opsecs with
               | Some links, Some ops =>
                   Some (mk_case (mk_cfg ks (smp =? 1) (sn, sv, ss) ra) (mk_start name kind sys steady sa links) ops)
               | _, _ => None
@@ -201,10 +261,18 @@ Fixpoint all_ints_any (l : list tok) : option (list Z) :=
   | TZ z :: r => option_map (cons z) (all_ints_any r)
   | _ => None
   end.
+(* the scalar tags of an observation: those of a case plus B8 (a single uint8_t - not an alternative of
+   OwnedAttributeValue; never printed by the C++ driver, accepted so that printing and parsing are inverse
+   on every value of the type) *)
+Definition oscalar_of_tag (t : tok) : option sty :=
+  match scalar_of_tag t with
+  | Some x => Some x
+  | None => if is_tag "B8" t then Some TU8 else None
+  end.
 Definition parse_oval (l : list tok) : option oval :=
   match l with
   | ty :: payload =>
-      match scalar_of_tag ty with
+      match oscalar_of_tag ty with
       | Some t => match payload with [TZ z] => Some (OSc t z) | _ => None end
       | None =>
           match array_of_tag ty with
@@ -326,7 +394,8 @@ Definition run_tag (l : list tok) : list tok :=
                  (if existsb is_end ops then
                     (if existsb is_end (after_end ops) then "_end2" else "_end") ++
                     (if existsb is_mutator (after_end ops) then "_late" else "")
-                  else "_dtor"))]
+                  else "_dtor") ++
+                 (if existsb (is_tag "PAR") l then "_par" else ""))]
   | None => bad_case
   end.
 
